@@ -9,6 +9,10 @@ Decided:
   MPT-C15c        since/until are applied per entry with inclusive comparators (>= since, <= until) in a retain/filter
                   over every entry; the order of stages is filter -> reverse -> take(limit); the result entry is built
                   from the frame the entry names, only if Active.
+  GUARD-C15d      the persisted time index holds active frames only: every iterator chain over toc.frames that produces
+                  TimeIndexEntry values filters on FrameStatus::Active in that chain (build_timeline applies
+                  take(limit) before it drops non-active frames, so a dead entry in the index uses up a limit slot and
+                  a limited timeline is no longer a prefix of the unlimited one). Shared with C08's feeder rule.
 Not decided: completeness (every active document frame exactly once) — value-level."""
 from . import lib
 from .facts import Place, op_place
@@ -48,6 +52,35 @@ def run(ctx):
     F = ctx.facts()
     _key(ctx, F)
     _timeline(ctx, F)
+    _index_members(ctx, F)
+
+
+def _index_members(ctx, F):
+    from . import c08
+    ctx.rule('GUARD-C15d', 'every toc.frames chain that produces TimeIndexEntry values tests FrameStatus::Active in that chain')
+    n = 0
+    for f in sorted(F.fns.values(), key=lambda x: x.path):
+        if f.is_closure or f.r.get('derive'):
+            continue
+        bodies = [f] + F.closures_of(f)
+        for b in bodies:
+            if not b.is_closure:
+                continue
+            for c in b.calls():
+                if not c.is_(('TimeIndexEntry::new',)):
+                    continue
+                g = c08._site_guarded(F, f, bodies, b, c)
+                if g is None:
+                    continue
+                n += 1
+                ctx.evaluations += 1
+                ctx.touch(f, 1)
+                if g:
+                    ctx.ok('GUARD-C15d', f, 'time-index entries are produced from active frames only', line=c.line)
+                else:
+                    ctx.bad('GUARD-C15d', f, 'time-index entries are produced from toc.frames without an Active test in that chain: deleted and superseded frames stay in the persisted index and '
+                            'consume limit slots of the timeline', line=c.line, sink='TimeIndexEntry::new', detail='time-index-includes-inactive')
+    ctx.floor('GUARD-C15d', n, 2, 'iterator chains over toc.frames producing TimeIndexEntry values')
 
 
 def _key(ctx, F, rule='AGREE-C15a'):
